@@ -150,7 +150,7 @@ impl<const N: u32> PxE1<{ N }> {
 
             let (mut regime, reg_s, reg_len) = Self::calculate_regime(k_a);
 
-            if reg_len > (N - 2) {
+            if reg_len + 2 > N {
                 //max or min pos. exp and frac does not matter.
                 if reg_s {
                     0x_7FFF_FFFF & Self::mask()
@@ -169,7 +169,7 @@ impl<const N: u32> PxE1<{ N }> {
 
                 //regime length is smaller than length of posit
                 if reg_len < N {
-                    if reg_len != N - 2 {
+                    if reg_len + 2 != N {
                         bit_n_plus_one = (0x8000_0000_0000_0000_u64 >> N) & frac64 != 0;
                     } else {
                         if frac64 > 0 {
@@ -192,7 +192,11 @@ impl<const N: u32> PxE1<{ N }> {
                 }
                 frac &= Self::mask();
 
-                exp <<= 29 - reg_len;
+                exp = if reg_len <= 29 {
+                    exp << (29 - reg_len)
+                } else {
+                    exp >> (reg_len - 29)
+                };
                 let mut u_z = Self::pack_to_ui(regime, exp as u32, frac);
 
                 //n+1 frac bit is 1. Need to check if another bit is 1 too if not round to even
@@ -271,7 +275,7 @@ impl<const N: u32> PxE1<{ N }> {
 
             let (mut regime, reg_s, reg_len) = Self::calculate_regime(k_a);
 
-            if reg_len > (N - 2) {
+            if reg_len + 2 > N {
                 //max or min pos. exp and frac does not matter.
                 if reg_s {
                     0x_7FFF_FFFF & Self::mask()
@@ -289,10 +293,10 @@ impl<const N: u32> PxE1<{ N }> {
 
                 //regime length is smaller than length of posit
                 if reg_len < N {
-                    if reg_len <= (N - 4) {
+                    if reg_len + 4 <= N {
                         bit_n_plus_one = (0x8000_0000_u64 << (32 - N)) & frac64 != 0;
                         //exp <<= (28-reg_len);
-                    } else if reg_len != N - 2 {
+                    } else if reg_len + 2 != N {
                         bit_n_plus_one = (0x8000_0000_0000_0000_u64 >> N) & frac64 != 0;
                     } else {
                         if frac64 > 0 {
@@ -315,7 +319,11 @@ impl<const N: u32> PxE1<{ N }> {
                 }
                 frac &= Self::mask();
 
-                exp <<= 29 - reg_len;
+                exp = if reg_len <= 29 {
+                    exp << (29 - reg_len)
+                } else {
+                    exp >> (reg_len - 29)
+                };
                 let mut u_z = Self::pack_to_ui(regime, exp as u32, frac);
 
                 //n+1 frac bit is 1. Need to check if another bit is 1 too if not round to even
@@ -390,7 +398,7 @@ impl<const N: u32> ops::Mul for PxE1<{ N }> {
 
             let (mut regime, reg_s, reg_len) = Self::calculate_regime(k_a);
 
-            if reg_len > (N - 2) {
+            if reg_len + 2 > N {
                 //max or min pos. exp and frac does not matter.
                 if reg_s {
                     0x_7FFF_FFFF & Self::mask()
@@ -405,7 +413,7 @@ impl<const N: u32> ops::Mul for PxE1<{ N }> {
                 let mut bit_n_plus_one = false;
                 let mut bits_more = false;
                 let frac = if reg_len < N {
-                    if reg_len != (N - 2) {
+                    if reg_len + 2 != N {
                         bit_n_plus_one = ((0x_8000_0000_0000_0000_u64 >> N) & frac64) != 0;
                         bits_more = ((0x_7FFF_FFFF_FFFF_FFFF >> N) & frac64) != 0;
                         ((frac64 >> 32) as u32) & Self::mask()
@@ -425,7 +433,11 @@ impl<const N: u32> ops::Mul for PxE1<{ N }> {
                     0
                 };
 
-                exp <<= 29 - reg_len;
+                exp = if reg_len <= 29 {
+                    exp << (29 - reg_len)
+                } else {
+                    exp >> (reg_len - 29)
+                };
                 let mut u_z = Self::pack_to_ui(regime, exp as u32, frac);
 
                 if bit_n_plus_one {
@@ -495,7 +507,7 @@ impl<const N: u32> ops::Div for PxE1<{ N }> {
 
             let (mut regime, reg_s, reg_len) = Self::calculate_regime(k_a);
 
-            if reg_len > (N - 2) {
+            if reg_len + 2 > N {
                 //max or min pos. exp and frac does not matter.
                 if reg_s {
                     0x_7FFF_FFFF & Self::mask()
@@ -511,7 +523,7 @@ impl<const N: u32> ops::Div for PxE1<{ N }> {
                 let mut bits_more = false;
                 let frac;
                 if reg_len < N {
-                    if reg_len != (N - 2) {
+                    if reg_len + 2 != N {
                         bit_n_plus_one =
                             (((0x_8000_0000_u64 >> (N - reg_len - 1)) as u32) & frac64) != 0;
                         bits_more = ((0x_7FFF_FFFF >> (N - reg_len - 1)) & frac64) != 0;
@@ -535,7 +547,11 @@ impl<const N: u32> ops::Div for PxE1<{ N }> {
                     frac = 0;
                 }
 
-                exp <<= 29 - reg_len;
+                exp = if reg_len <= 29 {
+                    exp << (29 - reg_len)
+                } else {
+                    exp >> (reg_len - 29)
+                };
                 let mut u_z = Self::pack_to_ui(regime, exp as u32, frac);
 
                 if bit_n_plus_one {
